@@ -7,6 +7,11 @@ WI = "bigtools/src/utils/cli/bigwiginfo.rs"
 BI = "bigtools/src/utils/cli/bigbedinfo.rs"
 
 
+def _canon(t):
+    """the summary's statistics named by field, whether they are read as `summary.sum` or from locals destructured out of the summary"""
+    return re.sub(r"\bsummary\.(?=bases_covered|min_val|max_val|sum_squares|sum|total_items)", "", t)
+
+
 def _prints(fn):
     out = {}
     for n in walk_no_nested_fn(fn.body):
@@ -14,18 +19,17 @@ def _prints(fn):
             fmt = n["args"][0]["v"]
             m = re.match(r"^([\w ]+): \{", fmt)
             if m:
-                out[m.group(1)] = (fmt, [re.sub(r"[\s()]", "", upn(fn, a)) for a in n["args"][1:]], n)     # normal form: temporaries inlined
+                out[m.group(1)] = (fmt, [re.sub(r"[\s()]", "", _canon(upn(fn, a))) for a in n["args"][1:]], n)     # normal form: temporaries inlined
     return out
 
 
 def ob_info_tools(ctx, res):
-    a = _prints(ctx.ast.fn(WI, "print_info"))
-    b = _prints(ctx.ast.fn(BI, "print_info"))
-    S = "summary"
+    a = _prints(ctx.ast.fn(WI, "print_info", inline=True, keep=("num_with_commas",)))
+    b = _prints(ctx.ast.fn(BI, "print_info", inline=True, keep=("num_with_commas",)))
     want = {
-        "basesCovered": ["num_with_commas%s.bases_covered" % S],
-        "mean": ["%s.sum/%s.bases_coveredasf64" % (S, S)],
-        "min": ["%s.min_val" % S], "max": ["%s.max_val" % S],
+        "basesCovered": ["num_with_commasbases_covered"],
+        "mean": ["sum/bases_coveredasf64"],
+        "min": ["min_val"], "max": ["max_val"],
     }
     alias = {"mean": "meanDepth", "min": "minDepth", "max": "maxDepth", "basesCovered": "basesCovered"}
     ok = True
@@ -41,8 +45,8 @@ def ob_info_tools(ctx, res):
     texts = []
     for file in (WI, BI):
         fn = ctx.ast.fn(file, "print_info")
-        gs = [n for n in walk_no_nested_fn(fn.body) if n.k == "let" and up(n["pat"]) == "summary"]
-        if len(gs) != 1 or not up(gs[0]["init"]).endswith(".get_summary()?"):
+        gs = [n for n in walk_no_nested_fn(fn.body) if n.k == "let" and n.get("init") is not None and up(n["init"]).endswith(".get_summary()?")]
+        if len(gs) != 1:
             res.fail("info/%s/derivation" % file.split("/")[-1], fn, "the summary printed must come from get_summary()")
             ok = False
             continue
@@ -53,16 +57,17 @@ def ob_info_tools(ctx, res):
             ok = False
             continue
         v = pr[lab][1][0] if pr[lab][1] else ""
-        n_ = "summary.bases_coveredasf64"
-        forms = {"%s+%s*%s" % (x, y, z) for x in ("",) for y in ("",) for z in ("",)}
-        accepted = {"summary.sum_squares-summary.sum*summary.sum/%s/%s-1.0.sqrt" % (n_, n_), "summary.sum_squares-summary.sum*summary.sum/%s/-1.0+%s.sqrt" % (n_, n_)}
-        if v not in accepted:
+        n_ = "bases_coveredasf64"
+        accepted = {"sum_squares-sum*sum/%s/%s-1.0.sqrt" % (n_, n_), "sum_squares-sum*sum/%s/-1.0+%s.sqrt" % (n_, n_)}
+        if v not in accepted and "sum_squares" not in v:
+            res.undecided("info/%s/variance" % file.split("/")[-1], pr[lab][2], "how the printed standard deviation `%s` is derived from the summary was not followed" % v[:60])
+        elif v not in accepted:
             res.fail("info/%s/variance" % file.split("/")[-1], pr[lab][2], "std must be sqrt((sumSquares - sum*sum/n) / (n - 1)); printed value is `%s` in normal form" % v)
             ok = False
         texts.append(v)
     # bigwiginfo --minmax, bigbedinfo itemCount
     mm = [n for n in walk_no_nested_fn(ctx.ast.fn(WI, "print_info").body) if n.k == "macro" and n["path"] == "println" and "args" in n and n["args"][0].k == "lit" and n["args"][0]["v"] == "{:.6} {:.6}"]
-    if len(mm) != 1 or [up(strip(x)) for x in mm[0]["args"][1:]] != ["summary.min_val", "summary.max_val"]:
+    if len(mm) != 1 or [_canon(up(strip(x))) for x in mm[0]["args"][1:]] != ["min_val", "max_val"]:
         res.fail("info/bigwiginfo/minmax", WI, "--minmax must print the stored minimum then maximum")
         ok = False
     if "itemCount" not in b or b["itemCount"][1] != ["bigbed.item_count?"]:
